@@ -174,13 +174,34 @@ def apply_library(kind, params, F):
         return g.FormulaLifting(F, params[0])
     if kind == "flip":
         return g.FlipPolarity(F)
+    return g.VariableCompression(F, compression_graph(*params), "xor" if kind == "xorcomp" else "maj")
+
+
+GRAPH_REPS = ("cnfgen", "cnfgen-repeated", "nx", "nx-multi")
+
+
+def compression_graph(nbrs, R, rep="cnfgen"):
+    """The same bipartite graph in several representations; listing an edge twice does not make it two edges."""
     from cnfgen.graphs import BipartiteGraph
-    nbrs, R = params
-    B = BipartiteGraph(len(nbrs), R)
-    for u, ns in enumerate(nbrs, start=1):
-        for v in ns:
+    edges = [(u, v) for u, ns in enumerate(nbrs, start=1) for v in ns]
+    if rep in ("cnfgen", "cnfgen-repeated"):
+        B = BipartiteGraph(len(nbrs), R)
+        for (u, v) in (edges if rep == "cnfgen" else list(reversed(edges)) + edges[::2]):
             B.add_edge(u, v)
-    return g.VariableCompression(F, B, "xor" if kind == "xorcomp" else "maj")
+        return B
+    import networkx
+    G = networkx.Graph() if rep == "nx" else networkx.MultiGraph()
+    for u in range(1, len(nbrs) + 1):
+        G.add_node("x%d" % u, bipartite=0)
+    for v in range(1, R + 1):
+        G.add_node("y%d" % v, bipartite=1)
+    for k, (u, v) in enumerate(edges):
+        G.add_edge("x%d" % u, "y%d" % v)
+        if rep == "nx-multi" and k % 2 == 0:
+            G.add_edge("y%d" % v, "x%d" % u)
+        if rep == "nx-multi" and k % 3 == 0:
+            G.add_edge("x%d" % u, "y%d" % v)
+    return G
 
 
 def judge(ctx, N, clauses, kind, params, T, how, label):
@@ -283,6 +304,11 @@ def case_named(ctx, rseed, count):
             judge(ctx, N, cls, kind, params, T, "library-named:" + style, label)
 
 
+def has_dot():
+    from cnfgen.graphs import has_dot_library
+    return has_dot_library()
+
+
 def too_costly(kind, params, clauses):
     """Gadgets with five or more inputs are applied to unit clauses only (2^(k-1) clauses per literal otherwise multiply)."""
     if not any(len(c) > 1 for c in clauses):
@@ -366,8 +392,10 @@ def case_compression(ctx, L, R, masks, fn):
     pairs = [(u, v) for u in range(1, L + 1) for v in range(1, R + 1)]
     for mask in masks:
         nbrs = [[v for (u, v) in pairs if u == x and (mask >> pairs.index((u, v))) & 1] for x in range(1, L + 1)]
-        for cls in formulas:
-            run_one(ctx, L, cls, fn, [nbrs, R])
+        for k, cls in enumerate(formulas):
+            rep = GRAPH_REPS[(mask + k) % len(GRAPH_REPS)]
+            ctx.count("compression_graph_as_" + rep)
+            run_one(ctx, L, cls, fn, [nbrs, R, rep])
 
 
 def case_cli(ctx, rseed, count):
@@ -409,6 +437,24 @@ def case_cli(ctx, rseed, count):
                 f.write("%d %d\n" % (N, R))
                 for ns in nbrs:
                     f.write(" ".join("1" if v in ns else "0" for v in range(1, R + 1)) + "\n")
+            if i % 2 and has_dot():
+                # the same graph as a dot file with named vertices, every other edge listed twice / backwards
+                gpath = os.path.join(d, "b%d.dot" % i)
+                with open(gpath, "w") as f:
+                    f.write("graph G {\n")
+                    for u in range(1, N + 1):
+                        f.write(" x%d [bipartite=0];\n" % u)
+                    for v in range(1, R + 1):
+                        f.write(" y%d [bipartite=1];\n" % v)
+                    k = 0
+                    for u, ns in enumerate(nbrs, start=1):
+                        for v in ns:
+                            f.write(" x%d -- y%d;\n" % (u, v))
+                            if k % 2 == 0:
+                                f.write(" y%d -- x%d;\n x%d -- y%d;\n" % (v, u, u, v))
+                            k += 1
+                    f.write("}\n")
+                ctx.count("compression_graph_as_dot_file_repeated_edges")
             for fn in ("xorcomp", "majcomp"):
                 argv = ["cnfgen", "-q", "dimacs", path, "-T", fn, gpath]
                 ctx.count("cli_calls")
@@ -417,7 +463,7 @@ def case_cli(ctx, rseed, count):
                 except BaseException as e:       # noqa: BLE001
                     if isinstance(e, KeyboardInterrupt) or type(e).__name__ == "CaseTimeout":
                         raise
-                    ctx.violation("%s:cli-raises:%s" % (fn, type(e).__name__), "cnfgen dimacs F -T %s <matrix file> raised %r" % (fn, e))
+                    ctx.violation("%s:cli-raises:%s" % (fn, type(e).__name__), "cnfgen dimacs F -T %s <graph file> raised %r" % (fn, e))
                     continue
                 ctx.count("compression_cases")
                 ctx.count("t_" + fn)
@@ -453,6 +499,12 @@ def workload(tier, seed):
                 yield "compression", {"L": L, "R": R, "masks": masks[i:i + 32], "fn": fn}
     for i in range(8 if tier == "quick" else 240):
         yield "cli", {"rseed": seed * 1000 + i, "count": 6}
+    for kind in ("xor", "xorcomp"):
+        for k in ((13, 16, 17, 18) if tier == "quick" else range(12, 21)):
+            yield "wide_gadget", {"kind": kind, "k": k, "rseed": seed}
+    for kind in ("maj", "majcomp", "or", "eq", "neq", "one"):
+        for k in ((12, 15) if tier == "quick" else (12, 13, 14, 15, 16, 17)):
+            yield "wide_gadget", {"kind": kind, "k": k, "rseed": seed}
 
 
 # ------------------------------------------------------------------ beyond the cap: sampled assignments, larger arities
@@ -487,6 +539,50 @@ def gadget_value(kind, params, N, a, v):
     return cnt % 2 == 1 if kind == "xorcomp" else 2 * cnt >= len(nbrs)
 
 
+def case_wide_gadget(ctx, kind, k, rseed):
+    """Gadgets with 12..20 inputs on formulas of one or two unit clauses (the gadget has up to 2^(k-1) clauses per literal):
+    the transformed formula is evaluated on sampled assignments, grouped by variable set, against the gadget's value."""
+    from ..refmodels.names import Evaluator
+    r = ctx.rng("c05wide", kind, k, rseed)
+    for cls, N in (([[1]], 1), ([[-1]], 1), ([[2], [-1]], 2)):
+        if kind in ("xorcomp", "majcomp"):
+            R = k + 2
+            nbrs = [sorted(r.sample(range(1, R + 1), k if v == 0 else 2)) for v in range(N)]
+            params = [nbrs, R, GRAPH_REPS[(k + N) % len(GRAPH_REPS)]]
+        else:
+            params = [k]
+        F = build_input(N, cls)
+        label = "%s%r on CNF(%d vars, %r)" % (kind, [k], N, cls)
+        st, T = ctx.call(apply_library, kind, params, F)
+        ctx.count("library_calls")
+        ctx.count("t_" + kind)
+        if st == "exc":
+            ctx.violation("%s:raises:%s" % (kind, type(T).__name__), "%s raised %r" % (label, T))
+            continue
+        nnew = new_numvar(kind, params, N)
+        if T.number_of_variables() != nnew:
+            ctx.violation("%s:numvar" % kind, "%s: %d variables, documented %d" % (label, T.number_of_variables(), nnew))
+            continue
+        ev = Evaluator(T)
+        ctx.count("wide_gadget_cases")
+        for j in range(400):
+            p = r.choice([0.05, 0.3, 0.5, 0.5, 0.5, 0.7, 0.95])
+            a = {v for v in range(1, nnew + 1) if r.random() < p}
+            if j < 2:
+                a = set(range(1, nnew + 1)) if j else set()
+            got = ev.value(a)
+            vals = [gadget_value(kind, params, N, a, v) for v in range(N)]
+            exp = all(any(vals[abs(l) - 1] == (l > 0) for l in c) for c in cls)
+            ctx.count("sampled_assignments")
+            if got != exp:
+                ctx.violation("%s:sampled-models" % kind, "%s: an assignment %s the transformed formula but its induced assignment %s F"
+                              % (label, "satisfies" if got else "falsifies", "falsifies" if got else "satisfies"),
+                              F=cls, true_vars=sorted(a)[:40])
+                break
+        ctx.judged(("wide", kind, k, N, tuple(map(tuple, cls))), nontrivial=True,
+                   sample={"F_clauses": cls, "transformation": [kind, k], "new_variables": nnew, "clauses": len(T), "mode": "sampled"})
+
+
 def case_sampled(ctx, rseed, count):
     from ..refmodels.names import eval_formula
     r = ctx.rng("c05sampled", rseed)
@@ -504,7 +600,8 @@ def case_sampled(ctx, rseed, count):
             params = [r.randint(2, 5)]
         elif kind in ("xorcomp", "majcomp"):
             R = r.randint(3, 14)
-            params = [[sorted(r.sample(range(1, R + 1), r.randint(0, min(R, 4 if kind == "xorcomp" else 6)))) for _ in range(N)], R]
+            params = [[sorted(r.sample(range(1, R + 1), r.randint(0, min(R, 4 if kind == "xorcomp" else 6)))) for _ in range(N)], R,
+                      r.choice(GRAPH_REPS)]
         else:
             params = []
         # substitutions distribute over clauses: keep the product of gadget sizes affordable
